@@ -201,10 +201,10 @@ pub fn run(tier: Tier, seed: u64) -> i32 {
         run.enumerate(&format!("exhaustive-trees-{n}"), enum_trees(n, &super::c02::leaves()), true, case_tree);
     }
     if !run.failed() {
-        run.random("random", tier.pick(6_000, 150_000), 600, |b| case_profile(b, &Profile::general()));
+        run.random("random", tier.pick(200_000, 6_000_000), 600, |b| case_profile(b, &Profile::general()));
     }
     if !run.failed() {
-        run.random("random-dense", tier.pick(12_000, 400_000), 600, |b| case_profile(b, &Profile::dense()));
+        run.random("random-dense", tier.pick(250_000, 8_000_000), 600, |b| case_profile(b, &Profile::dense()));
     }
     run.finish()
 }
